@@ -21,7 +21,7 @@ STATE_CLAUSES = {
             "sto_ok"],
     "C07": ["agv_phase", "agv_hold", "no_overdue", "travel_gap"],
     "C08": ["capacity"],
-    "C09": ["busy_op"],
+    "C09": ["busy_op", "setup_gap"],
     "C10": ["outages", "outage_nonneg"],
     "C11": [],
     "C12": ["no_overdue", "past", "idle_unclaimed", "sto_ok"],
@@ -50,7 +50,7 @@ PROFILES = {
     "C03": ("mixed", "buffers", "race", "full", "dep", "multibuf", "wide"),
     "C05": ("mixed", "buffers", "full", "stoch", "race", "multibuf", "wide", "outs", "dep", "outstart"),
     "C07": ("transport", "buffers", "full", "stoch", "race", "multibuf", "wide", "dep"),
-    "C08": ("buffers", "race", "full", "buffers", "dep", "wide", "race", "multibuf", "fullstart"),
+    "C08": ("buffers", "race", "full", "buffers", "dep", "wide", "race", "multibuf", "fullstart", "stale"),
     "C09": ("full", "stoch", "full", "mixed", "wide"),
     "C10": ("full", "stoch", "full", "full", "wide", "outs"),
     "C11": ("transport", "buffers", "full", "race", "wide", "multibuf", "dep", "outstart"),
@@ -155,11 +155,11 @@ def _worker(args):
     for k, pos, name, s in sv[:50]:
         out["violations"].append({"kind": "state:" + name, "detail": "clause %s false at %s" % (name, pos),
                                   "replay": replay_of(k, state=s, position=pos)})
-    if prop in ("C01", "C04", "C03", "C02", "C07"):
+    if prop in ("C01", "C04", "C03", "C02", "C07", "C05", "C11", "C09"):
         # hypotheses of the C01/C04 (and C03_claims_*) theorems on the compiled initial state of every episode: fresh (C04: fresh2); for the
         # unconditional (flex) theorems also fresh2, the store clauses of wfs_b and nodep - reported when the instance
         # has unordered machine post-buffers (the class those theorems speak about)
-        init_clauses = {"C01": ["fresh"], "C04": ["fresh2"], "C03": ["claims", "nodep"], "C02": [], "C07": ["agv_phase"]}[prop]
+        init_clauses = {"C01": ["fresh"], "C04": ["fresh2"], "C03": ["claims", "nodep"], "C02": [], "C07": ["agv_phase"], "C05": [], "C11": [], "C09": []}[prop]
         flex_hyps = ["placement", "loc", "capacity", "flags", "fresh2", "nodep"]
         nfresh = nflex = 0
         for e in eps:
@@ -181,6 +181,8 @@ def _worker(args):
                 if flex and prop != "C03":
                     nflex += 1
                     for hname in flex_hyps:
+                        if hname == "fresh2" and e.feats.get("profile") in ("outstart", "fullstart"):
+                            continue        # those profiles start outside the theorems' class on purpose
                         if bits[trace.CLAUSES.index(hname)] != "1":
                             out["violations"].append({"kind": "state:" + hname, "detail": "the initial state of an episode on "
                                                       "an instance with unordered post-buffers does not satisfy %s "
@@ -423,7 +425,7 @@ def sm_check(ctx, n_quick=160, n_thorough=6000, custom_p=0.15, extra=None, worke
         ctx.coverage["steps_checked_for_success_false"] = tot["steps_checked_for_reported_failure"]
     if prop == "C20":
         ctx.coverage["step_inputs_compared_with_their_deep_copy"] = tot["step_inputs_snapshotted"]
-    if prop in ("C01", "C04", "C03", "C02", "C07"):
+    if prop in ("C01", "C04", "C03", "C02", "C07", "C05", "C11", "C09"):
         ctx.coverage["initial_states_checked_against_theorem_hypotheses"] = tot["fresh_initial_states"]
         ctx.coverage["episodes_on_instances_with_unordered_post_buffers"] = tot["flex_episodes"]
     ctx.search_note = ("monitors (extracted theorem predicates) evaluated on %d implementation states and %d micro-events of "
@@ -640,7 +642,7 @@ def c18(ctx):
 
 
 def c08(ctx):
-    sm_check(ctx, n_quick=270, workers_quick=9)
+    sm_check(ctx, n_quick=300, workers_quick=10)
     keep_only(ctx, lambda v: not v["kind"].startswith("outcome:"))
 
 
